@@ -23,16 +23,16 @@ CtlOfN(nd) == Ctl(nd.args.breaker, nd.args.esm, Range(nd.args.off))
 RowOfN(nd) == Row(nd.args.h)
 
 (* ---------------------------------- C12 ---------------------------------- *)
-C12OwnerOnly(nd)   == nd.a = "Own" => OwnerOnly(Row(nd.args.msg), nd.args.signer, nd.res.ok)
-C12Victim(nd)      == nd.a = "Own" => VictimUntouched(nd.args.signer, nd.st.vpre, nd.st.vpost)
+C12OwnerOnly(nd)   == nd.a = "Own" => OwnerOnly(Row(nd.args.msg), nd.args.holder, nd.args.signer, nd.res.ok)
+C12Victim(nd)      == nd.a = "Own" => VictimUntouched(nd.args.holder, nd.args.signer, nd.st.vpre, nd.st.vpost)
 C12Rejected(nd)    == nd.a \in {"Own", "Priv", "Kill"} => RejectedChangesNothing(nd.res.ok, nd.st.pre, nd.st.post)
 C12Privileged(nd)  == nd.a = "Priv" => PrivilegedOnlyDesignated(nd.args.chain, nd.args.sender, nd.res.ok)
 C12PrivRole(nd)    == nd.a = "Priv" => PrivilegedRole(nd.args.v, nd.args.chain, nd.args.sender, nd.res.ok)
 C12PrivElse(nd)    == nd.a = "Priv" => PrivilegedElsewhere(nd.args.chain, nd.args.sender, nd.res.ok)
 C12Kill(nd)        == nd.a = "Kill" => KillOnlyAdmin(nd.args.sender, nd.res.ok)
 
-ConfOwner(nd) == nd.a = "Own" /\ RefOk(nd) /\ OwnerPredicted(Row(nd.args.msg), nd.args.signer) =>
-                   nd.res.ok = OwnerStep(Pos0, Row(nd.args.msg), nd.args.signer, TRUE).ok
+ConfOwner(nd) == nd.a = "Own" /\ RefOk(nd) /\ OwnerPredicted(Row(nd.args.msg), nd.args.holder, nd.args.signer) =>
+                   nd.res.ok = OwnerStep(Pos0(nd.args.holder), Row(nd.args.msg), nd.args.signer, TRUE).ok
 ConfPriv(nd)  == nd.a = "Priv" /\ RefOk(nd) => nd.res.ok = ImplPrivOk(nd.args.v, nd.args.chain, nd.args.sender)
 ConfKill(nd)  == nd.a = "Kill" => nd.res.ok = ImplKillOk(nd.args.sender)
 ConfCatalogue(nd) == nd.a = "Catalogue" => Range(nd.st.ids) = Ids
@@ -50,6 +50,12 @@ C14HookBreaker(nd) == nd.a = "Hook" /\ HookBreakerReq(nd.args.hook, HookCtl(nd))
 C14HookPrice(nd)  == nd.a = "Hook" /\ HookPriceReq(nd.args.hook, HookCtl(nd)) => HookIdle(nd)
 C14NoPanic(nd)    == nd.a \in {"Ctl", "Hook"} /\ nd.args.breaker => ~nd.res.panic
 
+(* live-auction steps: the projected auction records (price, start / end time, status, amounts) before and after the block *)
+AucMoved(nd)      == nd.st.apre # nd.st.apost
+C14AucPrice(nd)   == nd.a = "Auc" /\ AucPriceReq(nd.args.hook, Range(nd.args.off)) => ~AucMoved(nd)
+ConfAuc(nd)       == nd.a = "Auc" /\ nd.args.ref > 0 /\ AucMoved(Log[nd.args.ref]) =>
+                       AucMoved(nd) = ~ImplAucFrozen(nd.args.hook, Range(nd.args.off))
+
 ConfCtl(nd)  == nd.a = "Ctl" /\ RefOk(nd) => nd.res.ok = ImplOk(RowOfN(nd), nd.args.prod, CtlOfN(nd))
 HookActed(nd) == ~HookIdle(nd)
 ConfHook(nd) == nd.a = "Hook" /\ nd.args.ref > 0 /\ HookActed(Log[nd.args.ref]) =>
@@ -57,7 +63,7 @@ ConfHook(nd) == nd.a = "Hook" /\ nd.args.ref > 0 /\ HookActed(Log[nd.args.ref]) 
 
 Formulas == <<"C12_OwnerOnly", "C12_VictimUntouched", "C12_RejectedChangesNothing", "C12_Privileged", "C12_PrivilegedRole",
               "C12_PrivilegedOtherNetwork", "C12_KillSwitch",
-              "C14_Breaker", "C14_Shutdown", "C14_CoolOff", "C14_PriceMissing", "C14_FailsClosed", "C14_HookBreaker", "C14_HookPriceMissing",
+              "C14_Breaker", "C14_Shutdown", "C14_CoolOff", "C14_PriceMissing", "C14_FailsClosed", "C14_HookBreaker", "C14_HookPriceMissing", "C14_AuctionPriceMissing", "Conf_Auc",
               "Conf_Owner", "Conf_Priv", "Conf_Kill", "Conf_Catalogue", "Conf_Ctl", "Conf_Hook">>
 Holds(f, i) ==
   LET nd == Nd(i) IN
@@ -75,6 +81,8 @@ Holds(f, i) ==
     [] f = "C14_FailsClosed" -> C14FailsClosed(nd)
     [] f = "C14_HookBreaker" -> C14HookBreaker(nd)
     [] f = "C14_HookPriceMissing" -> C14HookPrice(nd)
+    [] f = "C14_AuctionPriceMissing" -> C14AucPrice(nd)
+    [] f = "Conf_Auc" -> ConfAuc(nd)
     [] f = "Conf_Owner" -> ConfOwner(nd)
     [] f = "Conf_Priv" -> ConfPriv(nd)
     [] f = "Conf_Kill" -> ConfKill(nd)
@@ -87,9 +95,9 @@ Judge == \A k \in 1..Len(Formulas) : Holds(Formulas[k], cur) \/ PrintT(<<"FAIL",
 (* ---------------------------------- vacuity counters ---------------------------------- *)
 Cnt(P(_)) == Cardinality({i \in 1..NLog : P(Nd(i))})
 IsOwn(nd)        == nd.a = "Own"
-OwnForeign(nd)   == nd.a = "Own" /\ nd.args.signer # "owner" /\ Row(nd.args.msg).own = "id" /\ RefOk(nd)   \* foreign attempt on a position its owner can move
-OwnSignerKeyed(nd) == nd.a = "Own" /\ nd.args.signer # "owner" /\ Row(nd.args.msg).own = "signer" /\ RefOk(nd)
-OwnOwnerOk(nd)   == nd.a = "Own" /\ nd.args.signer = "owner" /\ nd.res.ok /\ ~Same(nd)
+OwnForeign(nd)   == nd.a = "Own" /\ nd.args.signer # nd.args.holder /\ Row(nd.args.msg).own = "id" /\ RefOk(nd)   \* foreign attempt on a position its owner can move
+OwnSignerKeyed(nd) == nd.a = "Own" /\ nd.args.signer # nd.args.holder /\ Row(nd.args.msg).own = "signer" /\ RefOk(nd)
+OwnOwnerOk(nd)   == nd.a = "Own" /\ nd.args.signer = nd.args.holder /\ nd.res.ok /\ ~Same(nd)
 PrivGuarded(nd)  == nd.a = "Priv" /\ nd.args.chain \in MainTest /\ RefOk(nd)
 PrivAccepted(nd) == nd.a = "Priv" /\ nd.args.chain \in MainTest /\ nd.res.ok /\ ~Same(nd)
 PrivElse(nd)     == nd.a = "Priv" /\ nd.args.chain \notin MainTest /\ nd.args.sender # "admin" /\ RefOk(nd)
@@ -108,6 +116,9 @@ HookPrice(nd)    == nd.a = "Hook" /\ HookPriceReq(nd.args.hook, HookCtl(nd)) /\ 
 HookRefActs(nd)  == nd.a = "Hook" /\ nd.args.ref = nd.id /\ HookActed(nd)
 HookRef(nd)      == nd.a = "Hook" /\ nd.args.ref = nd.id
 IsState(nd)      == nd.a = "State"
+AucPrice(nd)     == nd.a = "Auc" /\ AucPriceReq(nd.args.hook, Range(nd.args.off)) /\ nd.args.ref > 0 /\ AucMoved(Log[nd.args.ref])
+AucRefMoved(nd)  == nd.a = "Auc" /\ nd.args.ref = nd.id /\ AucMoved(nd)
+AucWitnessed  == {Nd(i).args.hook : i \in {j \in 1..NLog : AucRefMoved(Nd(j))}}
 (* evidence notes (observed, never judged): messages reported as successful that changed nothing at all, and rejected
    messages whose handler had already written before failing (nothing-changed then rests on transaction atomicity) *)
 OkNoEffect(nd)   == nd.a \in {"Own", "Ctl"} /\ nd.res.ok /\ Same(nd)
@@ -127,6 +138,8 @@ Stats == PrintT(<<"STATS", [nodes |-> NLog, states |-> Cnt(IsState), own |-> Cnt
            ctlCoolWitness |-> Cnt(CtlCoolWitness), ctlPrice |-> Cnt(CtlPrice), ctlRef |-> Cnt(CtlRef), ctlRefOk |-> Cnt(CtlRefOk),
            ctlFreeOk |-> Cnt(CtlFree), hookBreaker |-> Cnt(HookBreaker), hookPrice |-> Cnt(HookPrice), hookRef |-> Cnt(HookRef), hookRefActs |-> Cnt(HookRefActs),
            noteOkNoEffect |-> Cnt(OkNoEffect), noteRejectedAfterWrites |-> Cnt(RejectedDirty),
+           aucPrice |-> Cnt(AucPrice), aucRefMoved |-> Cnt(AucRefMoved),
+           aucSteps |-> Cardinality(AuctionSteps), aucStepsWitnessed |-> Cardinality(AucWitnessed),
            ownRows |-> Cardinality(OwnerRows), ownRowsWitnessed |-> Cardinality(OwnWitnessed),
            variants |-> Cardinality(Variants), variantsWitnessed |-> Cardinality(PrivWitnessed),
            ctlHandlers |-> Cardinality(CtlAll), ctlHandlersWitnessed |-> Cardinality(CtlWitnessed),
